@@ -50,8 +50,15 @@ u32 __cxa_atexit(fnptr_t f, u8* a, u8* d) { return 0; }
 u32 __cxa_guard_acquire(u64* g) { return *(u8*)g == 0; }
 void __cxa_guard_release(u64* g) { *(u8*)g = 1; }
 void __cxa_guard_abort(u64* g) {}
-double v_sqrt_uf(double);  /* uninterpreted: shared by implementation and oracle */
-double v_sqrt(double x) { return v_sqrt_uf(x); }
+/* sqrt: an UNINTERPRETED FUNCTION (equal arguments give equal results; a body-less C function would be a fresh
+ * nondet per call) shared by implementation and oracle.  libm's sqrt/sqrtf (math-errno builds call them instead
+ * of llvm.sqrt) are routed to the same symbol so that CBMC's expensive library model is not pulled in. */
+double __CPROVER_uninterpreted_v_sqrt(double);
+double v_sqrt(double x) { return __CPROVER_uninterpreted_v_sqrt(x); }
+double sqrt(double x) { return v_sqrt(x); }
+float sqrtf(float x) { return (float)v_sqrt((double)x); }
+/* bcmp: what clang makes of std::equal over trivially comparable ranges */
+u32 bcmp(u8* a, u8* b, u64 n) { for (u64 i = 0; i < n; ++i) if (a[i] != b[i]) return 1; return 0; }
 double v_fabs(double x) { return x < 0 ? -x : (x == 0 ? 0.0 : x); }
 /* exceptions */
 u8* __cxa_allocate_exception(u64 n) { return (u8*)__CPROVER_allocate(n, 1); }
